@@ -2227,9 +2227,14 @@ def _lexsort(keys, axis=-1):
 # the `np` proxy
 
 class _Linalg:
+    exact = False
+
     def lstsq(self, a, b, rcond=None):
         """least squares on symbolic data is *nondeterministic*: the solution is a vector of fresh unconstrained reals
-        (results therefore hold for any regression outcome); identical arguments on one path give the identical solution"""
+        (results therefore hold for any regression outcome); identical arguments on one path give the identical solution.
+        With `exact` (Job(lstsq_exact=True)) the solution is constrained by the normal equations A^T (A x - b) = 0, which
+        every least-squares minimiser satisfies (a rank-deficient system keeps its freedom: NumPy's minimum-norm choice is
+        not modelled)."""
         if not (_has_sym(a) or _has_sym(b)):
             return _np.linalg.lstsq(demote(a) if isinstance(a, SymArray) else a, demote(b) if isinstance(b, SymArray) else b, rcond=rcond)
         c = cur()
@@ -2241,6 +2246,21 @@ class _Linalg:
             ncol = A_.shape[1]
             cache[key] = [SymNum(c.fresh_real('lstsq')) for _ in range(ncol)]
             c._keep.extend(_z(v) for v in list(A_.reshape(-1)) + list(B_.reshape(-1)) if is_sym(v))
+            if self.exact:
+                if B_.ndim != 1:
+                    raise Unsupported("exact lstsq with a matrix right-hand side")
+                xs = [_z(v) for v in cache[key]]
+                res = []
+                for i in range(A_.shape[0]):
+                    r = -_z(B_[i])
+                    for k in range(ncol):
+                        r = r + _z(A_[i, k]) * xs[k]
+                    res.append(r)
+                for k in range(ncol):
+                    tot = z3.RealVal(0)
+                    for i in range(A_.shape[0]):
+                        tot = tot + _z(A_[i, k]) * res[i]
+                    c.add(z3.simplify(tot) == 0)
         return array(cache[key]), None, None, None
 
     def __getattr__(self, n):
